@@ -1,3 +1,77 @@
 import Babylon.Core.Proto
-/-! Line-protocol driver for property C20 (stub). -/
-def main : IO Unit := Babylon.Core.runLines (fun (s : Unit) _ => (s, "bad-op")) ()
+import Babylon.Log.Entry
+/-! Line-protocol driver for the logging model (property C20), part A: `LogStreamBuffer` /
+`LogEntry` (same protocol as harness/c20.cpp, mode `entry`).
+
+  ps N      new recording allocator with page size N (page numbers restart at 0)
+  begin     LogStreamBuffer::begin()
+  put N     sputn of the next N pattern bytes          -> `sz <_log.size> np <pages allocated>`
+  putc      sputc of the next pattern byte             -> same
+  sync      pubsync()                                  -> same
+  end       end(); append_to_iovec                     -> `size S n I iov p:len … hash H`
+  discard   AsyncFileAppender::discard(entry)          -> `freed p p …`
+-/
+open Babylon.Core Babylon.Log
+
+structure St where
+  s : Stream Nat := Stream.begin 0 0
+  ps : Nat := 0
+  entryNo : Nat := 0      -- entries begun since `ps`
+  k : Nat := 0            -- bytes streamed into the current entry
+  ended : Bool := false
+
+/-- byte `k` of entry number `e` (same formula in the harness) -/
+def pat (e k : Nat) : Nat := (k * 131 + (k / 256) * 7 + e * 13 + 1) % 251
+
+def fnv (bs : List Nat) : UInt64 :=
+  bs.foldl (fun h b => (h ^^^ (UInt64.ofNat b)) * 1099511628211) 14695981039346656037
+
+def status (s : Stream Nat) : String :=
+  match s.buf.fault with
+  | some msg => "fault " ++ msg
+  | none => s!"sz {s.buf.size} np {s.buf.allocs.length}"
+
+def showIov (iov : Iov) : String :=
+  String.join (iov.map (fun e => s!" {e.1}:{e.2}"))
+
+def step (st : St) (line : String) : St × String :=
+  match words line with
+  | ["reset"] => ({}, "ok")
+  | ["ps", n] =>
+    match n.toNat? with
+    | some n => ({ s := Stream.begin n 0, ps := n, entryNo := 0, k := 0 }, "ok")
+    | none => (st, "bad-op")
+  | ["begin"] =>
+    let s' : Stream Nat := Stream.begin st.ps st.s.buf.nextId
+    ({ st with s := s', entryNo := st.entryNo + 1, k := 0, ended := false }, "ok")
+  | ["put", n] =>
+    match n.toNat? with
+    | some n =>
+      let bs := (List.range' st.k n).map (pat st.entryNo)
+      let s' := st.s.sputn bs
+      ({ st with s := s', k := st.k + n }, status s')
+    | none => (st, "bad-op")
+  | ["putc"] =>
+    let s' := st.s.putc (pat st.entryNo st.k)
+    ({ st with s := s', k := st.k + 1 }, status s')
+  | ["sync"] =>
+    let s' := st.s.step .sync
+    ({ st with s := s' }, status s')
+  | ["end"] =>
+    let s' := st.s.end_
+    match s'.buf.fault with
+    | some msg => ({ st with s := s' }, "fault " ++ msg)
+    | none =>
+      match appendToIovec s'.buf.entry st.ps with
+      | some iov =>
+        ({ st with s := s', ended := true },
+          s!"size {s'.buf.size} n {iov.length} iov{showIov iov} hash {fnv (iovBytes s'.dmem iov)}")
+      | none => ({ st with s := s' }, "fault append_to_iovec reads unwritten memory")
+  | ["discard"] =>
+    if !st.ended then (st, "bad-op") else
+    match discardPages st.s.buf.entry st.ps with
+    | some ps => ({ st with ended := false }, "freed" ++ String.join (ps.map (fun p => s!" {p}")))
+    | none => (st, "fault append_to_iovec reads unwritten memory")
+  | _ => (st, "bad-op")
+
+def main : IO Unit := runLines step ({} : St)
